@@ -474,6 +474,7 @@ func searchMatrix(l *mc.Local, w, h, init, depth int, full bool, stateCap int) {
 			_, mcur, _, _ := replayMatrix(w, h, init, nd.hist, full)
 			menu := matrixMenu(mcur.w, mcur.h, full)
 			for _, op := range menu {
+				l.Beat("")
 				r, m, msg, _ := replayMatrix(w, h, init, nd.hist, full)
 				if msg != "" {
 					continue // already reported when first reached
@@ -877,6 +878,7 @@ func searchArray(l *mc.Local, size, init, depth, stateCap int) {
 			_, mcur, _ := replayArray(size, init, h)
 			curSize := len(mcur.b)
 			for _, op := range arrayMenu(curSize) {
+				l.Beat("")
 				r, m, msg := replayArray(size, init, h)
 				if msg != "" {
 					continue
